@@ -9,8 +9,14 @@ statements about operation sequences are by induction over the operation list.
 `Frame N r T h h'` (Lemmas): from heap `h` to `h'` only new objects were allocated, no object below `N` other than `r`
 changed, and of `r` at most the entries `T` changed (identity, dtype, shape, length kept).
 `Step N r T w w'`: holdings of all signals and the caller's arrays are the same and `Frame N r T w.heap w'.heap`.
+
+Slices of ANY nesting depth (`Lemmas/SignalNested.lean`): `NSel f w r p sp T shp'` says that the root signal of `p` holds the
+whole array `r` in field `f` and that `compIdx` — the SPECIFICATION of nesting: index maps composed level by level —
+gives the root positions `T` (slice shape `shp'`) for `p[sp]`; `p` is a chain of view slices (basic slices, tuples of
+slices and integers) of any length, the last index `sp` is of any kind (view, or integer array = copy + write-back).
+Abstract specification and refinement: `Lemmas/SignalSpec.lean`, `Lemmas/SignalRefine.lean`.
 -/
-import PymotoVerif.Lemmas.Signal
+import PymotoVerif.Lemmas.SignalRefine
 
 namespace PymotoVerif.C18
 open PymotoVerif PymotoVerif.Signal
@@ -136,164 +142,194 @@ theorem mutate_only_target (w : World) (k : Nat) (c : Int) :
   apply write_objs_ne
   simpa [List.getD_eq_getElem?_getD] using h
 
-/-! ## slices touch only their own entries
+/-! ## slices touch only their own entries — any nesting depth
 
-Proved for slices taken DIRECTLY of a base signal that holds a whole array (`sig[spec]`, any spec kind: basic slice, tuple
-of slices on an n-d array, integer array, mixed tuple of slices / integers / one integer array at any axis — view path
-and copy-and-write-back path), for every operation of `SignalSlice`.
-`pos` is the index set the model computes for the spec (`selIdx`); `Sel` records `selIdx shape spec = ok (pos, shp')`, that the
-selection keeps at least one axis (`shp' ≠ []`; otherwise numpy hands out a scalar) and that the positions are inside the buffer (numpy's contract for index sets, compared exhaustively by the `c18.sel` stream).
+`p[sp]` with `p = sig[s₁][s₂]…[sₖ]` (k ≥ 0 view slices) and `sp` of any kind (basic slice, tuple of slices on an n-d array,
+integer array, mixed tuple of slices / integers / one integer array at any axis — view path and copy-and-write-back path).
+`T` is the COMPOSED index list of the ROOT array (`compIdx`), the hypothesis `NSel` only records that the root signal holds
+a whole array and that every level of the chain is a valid index selecting at least one axis (otherwise numpy hands out a
+scalar, not a slice).
 
-Full statement (not proved): the same for `SigRef`s of arbitrary nesting depth, `pos` being the composed index set.
-Missing: the lemma that re-evaluating a nested getter after allocations returns the same view (induction over `SigRef`). -/
+Outside these statements (documented, not claimed): chains in which an INNER index is an integer array — numpy then hands the
+outer slice a COPY, so writes through it never reach the root (the property's quantifier has "nested basic slices" only). -/
 
 /-- every sensitivity operation through the slice keeps all holdings and changes, among the existing heap objects, at most
-    the entries `pos` of the base sensitivity `r` -/
-theorem slice_touches_only_idx_partial (w : World) (i r : Nat) (sp : SliceSpec) (pos shp' : List Nat)
-    (hh : (w.sigs i).sens = .arr r) (hs : Sel w r sp pos shp') (hr : r < w.heap.next) (v : PVal) :
-    Step w.heap.next r pos w (addSlice w (.base i) sp v).1 ∧
-    Step w.heap.next r pos w (setSens w (.slice (.base i) sp) v).1 ∧
-    Step w.heap.next r pos w (resetSlice w (.base i) sp).1 :=
-  ⟨addSlice_base w i r sp v pos shp' hh hs hr (Nat.le_refl _),
-   setSens_slice_base w i r sp v pos shp' hh hs,
-   resetSlice_base w i r sp pos shp' hh hs hr (Nat.le_refl _)⟩
+    the entries `T` of the ROOT sensitivity `r` -/
+theorem slice_touches_only_idx (w : World) (r : Nat) (p : SigRef) (sp : SliceSpec) (T shp' : List Nat)
+    (hs : NSel .sens w r p sp T shp') (hr : r < w.heap.next) (v : PVal) :
+    Step w.heap.next r T w (addSlice w p sp v).1 ∧
+    Step w.heap.next r T w (setSens w (.slice p sp) v).1 ∧
+    Step w.heap.next r T w (resetSlice w p sp).1 :=
+  ⟨addSlice_n w r p sp v T shp' hs hr (Nat.le_refl _),
+   setSens_slice_n w r p sp v T shp' hs,
+   resetSlice_n w r p sp T shp' hs hr (Nat.le_refl _)⟩
 
-/-- the state setter of a slice changes at most the entries `pos` of the base state `r` -/
-theorem slice_state_touches_only_idx_partial (w : World) (i r : Nat) (sp : SliceSpec) (pos shp' : List Nat)
-    (hh : (w.sigs i).state = .arr r) (hs : Sel w r sp pos shp') (v : PVal) :
-    Step w.heap.next r pos w (setState w (.slice (.base i) sp) v).1 :=
-  writeField_base .state w i r sp v pos shp' hh hs
+/-- a doubly nested slice `s[2:8][1::2]` of a 10-vector: the composed positions are 3, 5, 7 -/
+example : NSel .sens ⟨⟨fun _ => ⟨false, [10], List.replicate 10 0⟩, 1⟩, fun _ => ⟨.arr 0, .arr 0, false⟩, 1, []⟩ 0
+    (.slice (.base 0) (.basic ⟨some 2, some 8, none⟩)) (.basic ⟨some 1, none, some 2⟩) [3, 5, 7] [3] :=
+  ⟨rfl, by decide⟩
 
-/-- spelled out: after `sig[spec].add_sensitivity(v)` the base still holds the same sensitivity object, its entries outside
-    the slice are what they were, its shape/dtype are kept, and every other existing array (states, other signals'
-    sensitivities, the caller's arrays, `v` itself) is unchanged -/
-theorem slice_add_only_idx_partial (w : World) (i r : Nat) (sp : SliceSpec) (pos shp' : List Nat)
-    (hh : (w.sigs i).sens = .arr r) (hs : Sel w r sp pos shp') (hr : r < w.heap.next) (v : PVal) :
-    let w' := (addSlice w (.base i) sp v).1
+/-- depth 3 with an integer array as LAST index (copy path): `s[::-1][1:9][[0, -1]]` → positions 8 and 1 -/
+example : NSel .sens ⟨⟨fun _ => ⟨false, [10], List.replicate 10 0⟩, 1⟩, fun _ => ⟨.arr 0, .arr 0, false⟩, 1, []⟩ 0
+    (.slice (.slice (.base 0) (.basic ⟨none, none, some (-1)⟩)) (.basic ⟨some 1, some 9, none⟩)) (.intArr [0, -1]) [8, 1] [2] :=
+  ⟨rfl, by decide⟩
+
+/-- nested tuple slices of a 3×4 array: `s[1:, :][:, 1:3]` → positions 5, 6, 9, 10 -/
+example : NSel .state ⟨⟨fun _ => ⟨false, [3, 4], List.replicate 12 0⟩, 1⟩, fun _ => ⟨.arr 0, .none, false⟩, 1, []⟩ 0
+    (.slice (.base 0) (.tuple [⟨some 1, none, none⟩, ⟨none, none, none⟩])) (.tuple [⟨none, none, none⟩, ⟨some 1, some 3, none⟩])
+    [5, 6, 9, 10] [2, 2] :=
+  ⟨rfl, by decide⟩
+
+/-- the state setter of a slice changes at most the entries `T` of the root state `r` -/
+theorem slice_state_touches_only_idx (w : World) (r : Nat) (p : SigRef) (sp : SliceSpec) (T shp' : List Nat)
+    (hs : NSel .state w r p sp T shp') (v : PVal) :
+    Step w.heap.next r T w (setState w (.slice p sp) v).1 :=
+  writeField_n .state w r p sp v T shp' hs
+
+/-- the getters READ exactly the composed positions: `slice.state` / `slice.sensitivity` is an array-like of the slice's shape
+    whose content is the gather `root[T]` (a view, or for an integer-array index a fresh copy); no existing object changes -/
+theorem slice_get_reads_idx (f : Fld) (w : World) (r : Nat) (p : SigRef) (sp : SliceSpec) (T shp' : List Nat)
+    (hs : NSel f w r p sp T shp') :
+    ∃ w1 v, getField f w (.slice p sp) = .ok (w1, v) ∧
+      v.src w1.heap = some (.arr (w.heap.objs r).cplx shp' (gatherF (absArr (w.heap.objs r).data) T)) ∧
+      w1.sigs = w.sigs ∧ (∀ r', r' < w.heap.next → w1.heap.objs r' = w.heap.objs r') := by
+  rw [getField_slice_val hs]
+  by_cases hview : sp.isView = true
+  · rw [if_pos hview]
+    exact ⟨_, _, rfl, rfl, rfl, fun _ _ => rfl⟩
+  · rw [if_neg hview]
+    refine ⟨_, _, rfl, ?_, rfl, fun r' hr' => alloc_objs_old _ _ _ (Nat.ne_of_lt hr')⟩
+    simp [PVal.src]
+    rfl
+
+/-- … and the setters WRITE exactly the converted right-hand side there: `slice.state = v` / `slice.sensitivity = v` is the scatter
+    `root[T] := prepSrc v` (numpy's conversion / broadcasting of `v` to the slice shape; `None` as a sensitivity stores 0);
+    when numpy raises, the root array is as it was -/
+theorem slice_set_writes_idx (w : World) (r : Nat) (p : SigRef) (sp : SliceSpec) (T shp' : List Nat) (v : PVal) :
+    (NSel .state w r p sp T shp' →
+      ((setState w (.slice p sp) v).1.heap.objs r).data =
+        match prepSrc (w.heap.objs r).cplx shp' (v.src w.heap) with
+        | .ok vals => writeList (w.heap.objs r).data T vals
+        | .error _ => (w.heap.objs r).data) ∧
+    (NSel .sens w r p sp T shp' →
+      ((setSens w (.slice p sp) v).1.heap.objs r).data =
+        match prepSrc (w.heap.objs r).cplx shp' ((noneToZero v).src w.heap) with
+        | .ok vals => writeList (w.heap.objs r).data T vals
+        | .error _ => (w.heap.objs r).data) := by
+  constructor
+  · intro hs
+    simp only [setState]
+    cases hp : prepSrc (w.heap.objs r).cplx shp' (v.src w.heap) with
+    | error e => rw [writeField_err hs hp]
+    | ok vals => rw [writeField_ok hs hp]; simp
+  · intro hs
+    rw [setSens_slice_eq v hs]
+    cases hp : prepSrc (w.heap.objs r).cplx shp' ((noneToZero v).src w.heap) with
+    | error e => rw [writeField_err hs hp]
+    | ok vals => rw [writeField_ok hs hp]; simp
+
+/-- spelled out: after `p[sp].add_sensitivity(v)` the root still holds the same sensitivity object, its entries outside
+    the composed positions are what they were, its shape/dtype are kept, and every other existing array (states, other
+    signals' sensitivities, the caller's arrays, `v` itself) is unchanged -/
+theorem slice_add_only_idx (w : World) (r : Nat) (p : SigRef) (sp : SliceSpec) (T shp' : List Nat)
+    (hs : NSel .sens w r p sp T shp') (hr : r < w.heap.next) (v : PVal) :
+    let w' := (addSlice w p sp v).1
     w'.sigs = w.sigs ∧
-    (∀ j, j ∉ pos → (w'.heap.objs r).data.getD j 0 = (w.heap.objs r).data.getD j 0) ∧
+    (∀ j, j ∉ T → (w'.heap.objs r).data.getD j 0 = (w.heap.objs r).data.getD j 0) ∧
     (w'.heap.objs r).shape = (w.heap.objs r).shape ∧ (w'.heap.objs r).cplx = (w.heap.objs r).cplx ∧
     (∀ r', r' < w.heap.next → r' ≠ r → w'.heap.objs r' = w.heap.objs r') := by
-  obtain ⟨h1, _, _, _, h2, h3, _, h5, h6⟩ := (slice_touches_only_idx_partial w i r sp pos shp' hh hs hr v).1
+  obtain ⟨h1, _, _, _, h2, h3, _, h5, h6⟩ := (slice_touches_only_idx w r p sp T shp' hs hr v).1
   exact ⟨h1, h3, h5, h6, h2⟩
 
-example : Sel ⟨⟨fun _ => ⟨false, [4], [⟨1, 0⟩, ⟨2, 0⟩, ⟨3, 0⟩, ⟨4, 0⟩]⟩, 1⟩, fun _ => ⟨.arr 0, .arr 0, false⟩, 1, []⟩ 0
-    (.basic ⟨some (-1), none, some (-2)⟩) [3, 1] [2] :=
-  ⟨rfl, by decide, by decide⟩
+/-- … and the entries at the composed positions receive exactly the accumulated values: gather, `+=` (numpy's casting and
+    broadcasting of the right-hand side: `addSrc`), scatter — the same for the view path and the copy-and-write-back path.
+    `d` is the content of the argument; `hwf`: the root array is well formed (as many entries as its shape says).
+    A raising `+=` leaves the root as it was. -/
+theorem slice_add_accumulates_idx (w : World) (r : Nat) (p : SigRef) (sp : SliceSpec) (T shp' : List Nat)
+    (hs : NSel .sens w r p sp T shp') (hwf : (w.heap.objs r).data.length = prod (w.heap.objs r).shape)
+    (hr : r < w.heap.next) (ds : PVal) (d : Src)
+    (hd : ds.src w.heap = some d) (hb : ∀ b, ds.buf = some b → b < w.heap.next) :
+    ((addSlice w p sp ds).1.heap.objs r).data =
+      match addSrc (w.heap.objs r).cplx shp' (gatherF (absArr (w.heap.objs r).data) T) d with
+      | .ok vals => writeList (w.heap.objs r).data T vals
+      | .error _ => (w.heap.objs r).data :=
+  addSlice_val hs (hs.ok hwf).1 hr hd hb
 
-/-- a mixed tuple `s[:, np.array([2, 0])]` on a 2×3 base: a basic slice BEFORE the integer array (copy path; the array
-    dimension stays in place) -/
-example : Sel ⟨⟨fun _ => ⟨false, [2, 3], [⟨1, 0⟩, ⟨2, 0⟩, ⟨3, 0⟩, ⟨4, 0⟩, ⟨5, 0⟩, ⟨6, 0⟩]⟩, 1⟩, fun _ => ⟨.arr 0, .arr 0, false⟩, 1, []⟩ 0
-    (.mixed [.sl ⟨none, none, none⟩] (some [2, 0]) []) [2, 0, 5, 3] [2, 2] :=
-  ⟨rfl, by decide, by decide⟩
+/-- numpy's contract for index sets holds for EVERY index the model supports, at every depth: the composed positions lie inside
+    the root array and there are as many as the slice shape says (proved from `slice.indices` arithmetic, C-order products and the
+    bounds checks of integer arrays) -/
+theorem slice_idx_inside (f : Fld) (w : World) (r : Nat) (p : SigRef) (sp : SliceSpec) (T shp' : List Nat)
+    (hs : NSel f w r p sp T shp') (hwf : (w.heap.objs r).data.length = prod (w.heap.objs r).shape) :
+    T.length = prod shp' ∧ ∀ t, t ∈ T → t < (w.heap.objs r).data.length :=
+  hs.ok hwf
 
-/-- non-adjacent advanced indices `s[0, :, np.array([3, 1])]` on a 2×3×4 base: the array dimension comes first -/
-example : selIdx [2, 3, 4] (.mixed [.int 0, .sl ⟨none, none, none⟩] (some [3, 1]) []) = .ok ([3, 7, 11, 1, 5, 9], [2, 3]) := rfl
+example : (List.replicate 10 (0 : GI)).length = prod [10] := by decide
 
-/-- resetting a slice clears only its own entries: the base keeps its sensitivity object, entries outside `pos` are
-    unchanged and every other existing array is unchanged (any spec kind) -/
-theorem slice_reset_only_idx_partial (w : World) (i r : Nat) (sp : SliceSpec) (pos shp' : List Nat)
-    (hh : (w.sigs i).sens = .arr r) (hs : Sel w r sp pos shp') (hr : r < w.heap.next) :
-    let w' := (resetSlice w (.base i) sp).1
+/-- resetting a slice clears only its own entries: the root keeps its sensitivity object, entries outside `T` are
+    unchanged and every other existing array is unchanged (any depth, any index kind) -/
+theorem slice_reset_only_idx (w : World) (r : Nat) (p : SigRef) (sp : SliceSpec) (T shp' : List Nat)
+    (hs : NSel .sens w r p sp T shp') (hr : r < w.heap.next) :
+    let w' := (resetSlice w p sp).1
     w'.sigs = w.sigs ∧
-    (∀ j, j ∉ pos → (w'.heap.objs r).data.getD j 0 = (w.heap.objs r).data.getD j 0) ∧
+    (∀ j, j ∉ T → (w'.heap.objs r).data.getD j 0 = (w.heap.objs r).data.getD j 0) ∧
     (∀ r', r' < w.heap.next → r' ≠ r → w'.heap.objs r' = w.heap.objs r') := by
-  obtain ⟨h1, _, _, _, h2, h3, _, _, _⟩ := (slice_touches_only_idx_partial w i r sp pos shp' hh hs hr .none).2.2
+  obtain ⟨h1, _, _, _, h2, h3, _, _, _⟩ := (slice_touches_only_idx w r p sp T shp' hs hr .none).2.2
   exact ⟨h1, h3, h2⟩
 
-/-- … and the entries inside are 0 afterwards (basic slices / tuples of slices and integers, i.e. every VIEW spec; `hlen`, `hnd`: the index set has as many
-    positions as the result shape says and no repeats — numpy facts about slices, checked by the `c18.sel` stream).
-    Not proved for the integer-array paths (`intArr`, mixed tuples with an array; needs `intAxis` length bookkeeping); covered by the correspondence. -/
-theorem slice_reset_zeroes_idx_partial (w : World) (i r : Nat) (sp : SliceSpec) (pos shp' : List Nat)
-    (hh : (w.sigs i).sens = .arr r) (hs : Sel w r sp pos shp') (hv : sp.isView = true)
-    (hlen : pos.length = prod shp') (hnd : pos.Nodup) :
-    (resetSlice w (.base i) sp).2 = none ∧
-    (∀ j, j ∈ pos → (((resetSlice w (.base i) sp).1).heap.objs r).data.getD j 0 = 0) := by
-  have hh' : (w.sigs i).get .sens = .arr r := hh
-  have e : resetSlice w (.base i) sp =
-      (⟨w.heap.write r pos (List.replicate (prod shp') 0), w.sigs, w.nsig, w.exts⟩, none) := by
-    cases sp with
-    | intArr is => simp [SliceSpec.isView] at hv
-    | mixed pre arr post =>
-      cases arr with
-      | some is => simp [SliceSpec.isView] at hv
-      | none =>
-        have hm := asView_arr_sel hs
-        simp only [List.getD_eq_getElem?_getD] at hm
-        simp [resetSlice, getField, hh', getItem, PVal.asView, hs.sel, SliceSpec.isView, setSens,
-          writeField, setItem, prepSet, advShape, prepVal, PVal.src, hm, hs.nz]
-    | basic s =>
-      have hm := asView_arr_sel hs
-      simp only [List.getD_eq_getElem?_getD] at hm
-      simp [resetSlice, getField, hh', getItem, PVal.asView, hs.sel, SliceSpec.isView, setSens,
-        writeField, setItem, prepSet, advShape, prepVal, PVal.src, hm, hs.nz]
-    | tuple ss =>
-      have hm := asView_arr_sel hs
-      simp only [List.getD_eq_getElem?_getD] at hm
-      simp [resetSlice, getField, hh', getItem, PVal.asView, hs.sel, SliceSpec.isView, setSens,
-        writeField, setItem, prepSet, advShape, prepVal, PVal.src, hm, hs.nz]
-  rw [e]
-  refine ⟨rfl, fun j hj => ?_⟩
-  obtain ⟨k, hk, rfl⟩ := List.getElem_of_mem hj
-  rw [write_objs_self]
-  have hk' : pos[k] = pos.getD k 0 := by simp [List.getD_eq_getElem?_getD, hk]
-  rw [hk']
-  have := writeList_getD_of_nodup (w.heap.objs r).data pos (List.replicate (prod shp') 0) hnd k hk
-    (by simp [← hlen, hk]) (by rw [← hk']; exact hs.inb _ (List.getElem_mem hk))
-  simp only [this]
-  simp [List.getD_eq_getElem?_getD, ← hlen, hk]
+/-- … and the entries inside are 0 afterwards — every index kind (views AND integer-array copies), any depth, repeats allowed -/
+theorem slice_reset_zeroes_idx (w : World) (r : Nat) (p : SigRef) (sp : SliceSpec) (T shp' : List Nat)
+    (hs : NSel .sens w r p sp T shp') (hr : r < w.heap.next)
+    (hwf : (w.heap.objs r).data.length = prod (w.heap.objs r).shape) :
+    (resetSlice w p sp).2 = none ∧
+    (∀ j, j ∈ T → (((resetSlice w p sp).1).heap.objs r).data.getD j 0 = 0) := by
+  obtain ⟨hlen, hinb⟩ := hs.ok hwf
+  obtain ⟨h1, h2⟩ := resetSlice_val hs hr
+  refine ⟨h1, fun j hj => ?_⟩
+  rw [h2]
+  exact (AllZero.replicate (prod shp')) _
+    (writeList_getD_mem _ T _ j hj (by simp [hlen]) (hinb j hj))
 
-example : ([3, 1] : List Nat).Nodup ∧ ([3, 1] : List Nat).length = prod [2] := by decide
+/-- adding through a slice of ANY depth when the root has NO sensitivity yet: the root receives a FRESH array `r0` (allocated
+    during the call) of the state's shape and dtype whose entries outside the composed positions are 0; the state object and
+    every other existing array are untouched and no other holding changes.
+    (`hnz`: the state has rank ≥ 1 — `state * 0` of a rank-0 array is a numpy scalar, on which no slice exists.) -/
+theorem slice_add_creates_zero_sens (w : World) (i rs : Nat) (p : SigRef) (sp : SliceSpec) (T shp' : List Nat) (v : PVal)
+    (hv : v ≠ .none) (hroot : p.root = i) (hse : (w.sigs i).sens = .none) (hst : (w.sigs i).state = .arr rs)
+    (hrs : rs < w.heap.next) (hs : NSel .state w rs p sp T shp') (hnz : (w.heap.objs rs).shape ≠ []) :
+    let w' := (addSlice w p sp v).1
+    ∃ r0, w.heap.next ≤ r0 ∧
+      (w'.sigs i).sens = .arr r0 ∧ (w'.sigs i).state = .arr rs ∧ (∀ j, j ≠ i → w'.sigs j = w.sigs j) ∧
+      (w'.heap.objs r0).shape = (w.heap.objs rs).shape ∧
+      (w'.heap.objs r0).cplx = (w.heap.objs rs).cplx ∧
+      (w'.heap.objs r0).data.length = (w.heap.objs rs).data.length ∧
+      (∀ j, j ∉ T → (w'.heap.objs r0).data.getD j 0 = 0) ∧
+      (∀ r', r' < w.heap.next → w'.heap.objs r' = w.heap.objs r') := by
+  obtain ⟨r0, Z⟩ := addSlice_init_zero w i rs p sp T shp' v hv hroot hse hst hrs hs hnz
+  exact ⟨r0, Z.fresh, Z.sens, Z.state, Z.others, Z.shape, Z.cplx, Z.len, Z.zero, Z.old⟩
 
-/-- adding through a slice when the base has NO sensitivity yet: the base receives a FRESH array (`w.heap.next`) of the
-    state's shape and dtype whose entries outside the slice are 0; the state object and every other existing array are
-    untouched and no other holding changes -/
-theorem slice_add_creates_zero_sens_partial (w : World) (i rs : Nat) (sp : SliceSpec) (pos shp' : List Nat) (v : PVal)
-    (hv : v ≠ .none) (hse : (w.sigs i).sens = .none) (hst : (w.sigs i).state = .arr rs)
-    (hs : Sel w rs sp pos shp') (hnz : (w.heap.objs rs).shape ≠ []) :
-    let w' := (addSlice w (.base i) sp v).1
-    (w'.sigs i).sens = .arr w.heap.next ∧ (w'.sigs i).state = .arr rs ∧ (∀ j, j ≠ i → w'.sigs j = w.sigs j) ∧
-    (w'.heap.objs w.heap.next).shape = (w.heap.objs rs).shape ∧
-    (w'.heap.objs w.heap.next).cplx = (w.heap.objs rs).cplx ∧
-    (∀ j, j ∉ pos → (w'.heap.objs w.heap.next).data.getD j 0 = 0) ∧
-    (∀ r', r' < w.heap.next → w'.heap.objs r' = w.heap.objs r') := by
-  have hst' : (w.sigs i).get .state = .arr rs := hst
-  have hse' : (w.sigs i).get .sens = .none := hse
-  -- the world after `self.base.sensitivity = self.base.state * 0`
-  let o : Obj := ⟨(w.heap.objs rs).cplx, (w.heap.objs rs).shape,
-    List.replicate (List.range (w.heap.objs rs).data.length).length 0⟩
-  let w4 : World := ({ w with heap := (w.heap.alloc o).1 } : World).setSens i (.arr w.heap.next)
-  have e : addSlice w (.base i) sp v = addTail w4 (.base i) sp v := by
-    cases v with
-    | none => exact absurd rfl hv
-    | _ => simp [addSlice, getField, hse', hst', initSens, mulZero, PVal.asView, setSens, w4, o, Heap.alloc, hnz]
-  have h4s : (w4.sigs i).sens = .arr w.heap.next := by simp [w4, World.setSens]
-  have hs4 : Sel w4 w.heap.next sp pos shp' := by
-    refine ⟨?_, ?_, hs.nz⟩
-    · have : (w4.heap.objs w.heap.next) = o := by simp [w4, World.setSens]
-      rw [this]; exact hs.sel
-    · have : (w4.heap.objs w.heap.next) = o := by simp [w4, World.setSens]
-      rw [this]; simpa [o] using hs.inb
-  have st := addTail_base (N := w.heap.next + 1) w4 i w.heap.next sp v pos shp' h4s hs4 (Nat.lt_succ_self _)
-    (by simp [w4, World.setSens])
-  rw [e]
-  obtain ⟨h1, _, _, _, h2, h3, _, h5, h6⟩ := st
-  refine ⟨by rw [h1]; exact h4s, by rw [h1]; simp [w4, World.setSens, hst], fun j hj => by rw [h1]; simp [w4, World.setSens, hj],
-    ?_, ?_, ?_, ?_⟩
-  · rw [h5]; simp [w4, World.setSens, o]
-  · rw [h6]; simp [w4, World.setSens, o]
-  · intro j hj
-    rw [h3 j hj]
-    simp only [w4, World.setSens, o, alloc_objs_new, List.length_range]
-    by_cases hjl : j < (w.heap.objs rs).data.length <;> simp [List.getD_eq_getElem?_getD, hjl]
-  · intro r' hr'
-    rw [h2 r' (by omega) (by omega)]
-    simp [w4, World.setSens, Nat.ne_of_lt hr']
+/-- non-vacuity / end-to-end instance on the executable model: `s = Signal(state=[1..10])`; the doubly nested slice
+    `s[2:8][1::2]` (root positions 3, 5, 7) receives `[10, 20, 30]` while `s` has no sensitivity: a fresh zero array is
+    created for the ROOT (ref 3: the zero array of the intermediate slice is allocated before it) and only the composed positions are filled;
+    a second add through the depth-3 integer-array slice `s[::-1][1:9][[0, -1]]` (root positions 8, 1; copy + write-back)
+    accumulates; resetting `s[2:8][1::2]` zeroes exactly 3, 5, 7 -/
+example :
+    let s1 : SigRef := .slice (.slice (.base 0) (.basic ⟨some 2, some 8, none⟩)) (.basic ⟨some 1, none, some 2⟩)
+    let s2 : SigRef := .slice (.slice (.slice (.base 0) (.basic ⟨none, none, some (-1)⟩)) (.basic ⟨some 1, some 9, none⟩)) (.intArr [0, -1])
+    let ops : List Op := [
+      .newSignal (.newArr false [10] ((List.range 10).map fun (k : Nat) => ⟨(k : Int) + 1, 0⟩)) .none,
+      .add s1 (.newArr false [3] [⟨10, 0⟩, ⟨20, 0⟩, ⟨30, 0⟩]),
+      .add s2 (.sc false ⟨7, 0⟩)]
+    let w := run World.empty ops
+    let w' := run w [.reset s1 none]
+    (w.sigs 0).sens = .arr 3 ∧
+    (w.heap.objs 3).data = [⟨0, 0⟩, ⟨7, 0⟩, ⟨0, 0⟩, ⟨10, 0⟩, ⟨0, 0⟩, ⟨20, 0⟩, ⟨0, 0⟩, ⟨30, 0⟩, ⟨7, 0⟩, ⟨0, 0⟩] ∧
+    (w'.heap.objs 3).data = [⟨0, 0⟩, ⟨7, 0⟩, ⟨0, 0⟩, ⟨0, 0⟩, ⟨0, 0⟩, ⟨0, 0⟩, ⟨0, 0⟩, ⟨0, 0⟩, ⟨7, 0⟩, ⟨0, 0⟩] ∧
+    (w'.heap.objs 0).data = (List.range 10).map fun (k : Nat) => ⟨(k : Int) + 1, 0⟩ := by
+  decide
 
-/-- non-vacuity / end-to-end instance on the executable model: `s = Signal(state=[1,2,3,4])`, `s[::-1][0:2]` is not
-    needed here — the depth-1 slice `s[-1::-2]` (positions 3, 1) receives `[10, 20]`, the caller then changes its array,
-    a second signal receives the same object: the base sensitivity is `[0, 20, 0, 10]` in a fresh object (ref 2) and the
-    second signal holds its own copy (ref 3) of the CHANGED caller array -/
+/-- the depth-1 example of the first version: `s[-1::-2]` (positions 3, 1) receives `[10, 20]`, the caller then changes its
+    array, a second signal receives the same object: the base sensitivity is `[0, 20, 0, 10]` in a fresh object (ref 2) and
+    the second signal holds its own copy (ref 3) of the CHANGED caller array -/
 example :
     let ops : List Op := [
       .newSignal (.newArr false [4] [⟨1, 0⟩, ⟨2, 0⟩, ⟨3, 0⟩, ⟨4, 0⟩]) .none,
@@ -328,6 +364,91 @@ example :
       = some (.view 0 [3, 4] [2]) ∧
     (getField .state w (.slice (.slice (.base 0) (.basic ⟨some 3, some 6, none⟩)) (.basic ⟨some 5, some 9, none⟩))).toOption.map (·.2)
       = some (.view 0 [] [0]) := by
+  decide
+
+/-! ## refinement to the gather / scatter specification
+
+Specification (`Lemmas/SignalRefine.lean`): the abstract state `AState` has every root array as a FUNCTION index → value and
+nothing else; an operation `SOp` through a slice `p[sp]` of any depth is `specStep`: the root array `f` of the slice becomes
+`scatterF f T vals` where `T = compIdx …` is the composed index list and `vals = specVals …` is
+  set:   the right-hand side converted / broadcast to the slice shape (`prepSrc`, numpy's assignment semantics),
+  add:   `gatherF f T` plus the broadcast right-hand side (`addSrc`),
+  reset: zeros,
+or `f` itself when numpy raises (casting, broadcasting); every other root array is untouched. No views, no copies, no
+write-back and no nesting exist in the specification.
+
+`signal_refines_spec`: for EVERY sequence of such operations (state / sensitivity assignment, add_sensitivity, reset through
+slices of any depth and index kind, on any number of signals, with literal arguments; in any interleaving, including signals
+that share one array), by induction over the sequence, the abstraction of the heap of the model after the run equals the
+run of the specification, and holdings, dtypes and shapes are the initial ones.
+
+Scope (`InScope`): the root signal holds an array that exists initially and is well formed (as many entries as its shape says),
+and the chain of slices is a valid index at every level (`compIdx`). numpy's contract for index sets is PROVED for the model
+(`slice_idx_inside`), not assumed.
+Not covered by this theorem (covered by the theorems above or by the correspondence): operations on the plain signals
+themselves inside the sequence (they re-bind holdings: `reset_clears`, `add_no_alias`, `add_in_place`), the creation of an
+absent root sensitivity (`slice_add_creates_zero_sens`, after which the sequence is in scope), and arguments that alias a
+signal's own array (their frame is `slice_touches_only_idx`). -/
+
+theorem signal_refines_spec (w0 : World) (ops : List SOp) (hsc : ∀ o, o ∈ ops → InScope w0 o) :
+    let w := run w0 (ops.map SOp.toOp)
+    (∀ r, r < w0.heap.next → absState w.heap r = specRun w0 (absState w0.heap) ops r) ∧
+    w.sigs = w0.sigs ∧
+    (∀ r, r < w0.heap.next → (w.heap.objs r).shape = (w0.heap.objs r).shape ∧ (w.heap.objs r).cplx = (w0.heap.objs r).cplx ∧
+      (w.heap.objs r).data.length = (w0.heap.objs r).data.length) := by
+  -- generalised over the current world `w` and ANY abstract state `A` that agrees with it on the initial objects
+  suffices h : ∀ (ops : List SOp) (w : World) (A : AState), (∀ o, o ∈ ops → InScope w0 o) → Inv w0 w →
+      (∀ r, r < w0.heap.next → absState w.heap r = A r) →
+      Inv w0 (run w (ops.map SOp.toOp)) ∧
+      ∀ r, r < w0.heap.next → absState (run w (ops.map SOp.toOp)).heap r = specRun w0 A ops r by
+    obtain ⟨hi, ha⟩ := h ops w0 (absState w0.heap) hsc (Inv.refl w0) (fun _ _ => rfl)
+    exact ⟨ha, hi.sigs, fun r hr => ⟨hi.shape r hr, hi.cplx r hr, hi.len r hr⟩⟩
+  intro ops
+  induction ops with
+  | nil => intro w A _ hi hA; exact ⟨hi, hA⟩
+  | cons o os ih =>
+    intro w A hsc hi hA
+    obtain ⟨hi', ha'⟩ := step_refines w0 w o hi (hsc o (by simp))
+    refine ih (step w o.toOp).1 (specStep w0 A o) (fun o' ho' => hsc o' (by simp [ho'])) hi' ?_
+    intro r hr
+    rw [ha' r hr]
+    -- the specification step only looks at the initial objects
+    obtain ⟨r1, tc, T, shp', htgt, hr1, _⟩ := hsc o (by simp)
+    simp only [specStep, htgt]
+    by_cases hrr : r = r1
+    · subst hrr
+      simp only [if_true, hA r hr1]
+    · simp only [hrr, if_false, hA r hr]
+
+/-- non-vacuity: three operations in scope on a world whose signal 0 holds one 10-vector as state AND sensitivity (aliasing):
+    set through the doubly nested state slice, add through the depth-3 integer-array slice, reset of the nested slice -/
+example :
+    let w0 : World := ⟨⟨fun _ => ⟨false, [10], List.replicate 10 0⟩, 1⟩, fun _ => ⟨.arr 0, .arr 0, false⟩, 1, []⟩
+    let s1p : SigRef := .slice (.base 0) (.basic ⟨some 2, some 8, none⟩)
+    let s2p : SigRef := .slice (.slice (.base 0) (.basic ⟨none, none, some (-1)⟩)) (.basic ⟨some 1, some 9, none⟩)
+    ∀ o, o ∈ ([⟨.setState, s1p, .basic ⟨some 1, none, some 2⟩, .arr false [3] [⟨1, 0⟩, ⟨2, 0⟩, ⟨3, 0⟩], none⟩,
+               ⟨.add, s2p, .intArr [0, -1], .sc false ⟨7, 0⟩, none⟩,
+               ⟨.reset, s1p, .basic ⟨some 1, none, some 2⟩, .none, some true⟩] : List SOp) → InScope w0 o := by
+  intro w0 s1p s2p o ho
+  simp only [List.mem_cons, List.not_mem_nil, or_false] at ho
+  rcases ho with rfl | rfl | rfl
+  · exact ⟨0, false, [3, 5, 7], [3], rfl, by decide, by decide⟩
+  · exact ⟨0, false, [8, 1], [2], rfl, by decide, by decide⟩
+  · exact ⟨0, false, [3, 5, 7], [3], rfl, by decide, by decide⟩
+
+/-- … and what the SPECIFICATION computes for them (pure functions, no heap): entries 3, 5, 7 := 1, 2, 3; entries 8, 1 += 7;
+    entries 3, 5, 7 := 0 -/
+example :
+    let w0 : World := ⟨⟨fun _ => ⟨false, [10], List.replicate 10 0⟩, 1⟩, fun _ => ⟨.arr 0, .arr 0, false⟩, 1, []⟩
+    let s1p : SigRef := .slice (.base 0) (.basic ⟨some 2, some 8, none⟩)
+    let s2p : SigRef := .slice (.slice (.base 0) (.basic ⟨none, none, some (-1)⟩)) (.basic ⟨some 1, some 9, none⟩)
+    let o1 : SOp := ⟨.setState, s1p, .basic ⟨some 1, none, some 2⟩, .arr false [3] [⟨1, 0⟩, ⟨2, 0⟩, ⟨3, 0⟩], none⟩
+    let o2 : SOp := ⟨.add, s2p, .intArr [0, -1], .sc false ⟨7, 0⟩, none⟩
+    let o3 : SOp := ⟨.reset, s1p, .basic ⟨some 1, none, some 2⟩, .none, some true⟩
+    (List.range 10).map (specRun w0 (absState w0.heap) [o1, o2] 0)
+      = [⟨0, 0⟩, ⟨7, 0⟩, ⟨0, 0⟩, ⟨1, 0⟩, ⟨0, 0⟩, ⟨2, 0⟩, ⟨0, 0⟩, ⟨3, 0⟩, ⟨7, 0⟩, ⟨0, 0⟩] ∧
+    (List.range 10).map (specRun w0 (absState w0.heap) [o1, o2, o3] 0)
+      = [⟨0, 0⟩, ⟨7, 0⟩, ⟨0, 0⟩, ⟨0, 0⟩, ⟨0, 0⟩, ⟨0, 0⟩, ⟨0, 0⟩, ⟨0, 0⟩, ⟨7, 0⟩, ⟨0, 0⟩] := by
   decide
 
 /-! ## histories
